@@ -66,7 +66,7 @@ func runC06(e *Env, p *Plan) {
 		t := w.Register(op)
 		ctx, cancel := context.WithCancel(context.Background())
 		cancelAll = append(cancelAll, cancel)
-		if op.Kind == "ctx" {
+		if op.Kind == "ctx" || (op.Kind == "sub" && op.Hold) {
 			g := make(chan struct{})
 			gates[op.Tok] = g
 			t.mu.Lock()
@@ -164,7 +164,7 @@ func runC06(e *Env, p *Plan) {
 		case "sub":
 			st := e.Sub(op.Tok)
 			st.mu.Lock()
-			over := st.ProdDone
+			over := st.ProdDone && !running
 			st.mu.Unlock()
 			if !over && ctx.Err() == nil {
 				e.Violate("C06.cancel-reaches-handler", "subscription tok=%d: the caller cancelled its context at step %d but the handler's context is still live", t.ID, t.CancelAt)
